@@ -484,10 +484,17 @@ def random_spec(rng, tier):
     style = rng.choice(["simple", "spaces", "tabs", "mix", "tabruns"])
     dens = rng.choice([0.0, 0.0, 0.15, 0.5, 1.0])
     lines = []
+    uniform_tabs = None
+    if style == "tabruns" and rng.random() < 0.5:
+        # every data line carries the SAME tab padding (doubled separators, a leading and/or trailing tab)
+        uniform_tabs = (rng.choice(["", "\t"]), [rng.choice(["\t", "\t\t"]) for _ in range(max(1, min(c - 1, 4)))], rng.choice(["", "\t"]))
     for i in range(r):
         while dens and rng.random() < dens * 0.7:
             lines.append(gap_line(rng, rng.choice("bwcc")))
-        lines.append(data_line(rng, i, c, style))
+        if uniform_tabs is not None:
+            lines.append(["d", i, uniform_tabs[0], list(uniform_tabs[1]), uniform_tabs[2]])
+        else:
+            lines.append(data_line(rng, i, c, style))
     tailk = rng.choice(["", "", "b", "c", "w", "bb", "cb", "bc", "ccc", "wb"])
     for k in tailk:
         lines.append(gap_line(rng, k))
